@@ -38,6 +38,9 @@ pub struct Driver<A: Tracker> {
   pub shadow: Shadow,
   /// Resources changed externally since the last point at which every known task was brought up to date.
   pub pending: BTreeSet<u32>,
+  /// If set, the next bottom-up session first creates a bottom-up build, tells it about these resources while every
+  /// checker fails (so that all their dependents are scheduled in it), and drops it without updating.
+  pub abandon_plan: Option<Vec<u32>>,
   pub session_no: u32,
 }
 
@@ -49,7 +52,7 @@ impl<A: Tracker> Driver<A> {
       for (r, v) in init.iter().enumerate() { store.set(r as u32, *v); }
     }
     let n = prog.n_tasks();
-    Driver { prog, pie, world: init.to_vec(), shadow: Shadow::new(n), pending: BTreeSet::new(), session_no: 0 }
+    Driver { prog, pie, world: init.to_vec(), shadow: Shadow::new(n), pending: BTreeSet::new(), abandon_plan: None, session_no: 0 }
   }
 
   pub fn set(&mut self, res: u32, val: Option<u32>) {
@@ -113,7 +116,20 @@ impl<A: Tracker> Driver<A> {
       let pie = &mut self.pie;
       let mut session = pie.new_session();
       let mut returned: Vec<(u32, u32)> = Vec::new();
+      let abandon = self.abandon_plan.take();
       let result = catch(|| {
+        if let (Some(_), Some(told)) = (&bottom_up, &abandon) {
+          log::push(Ev::BuCreate);
+          let mut bu0 = session.create_bottom_up_build();
+          cell::FAULTS.with(|f| f.borrow_mut().fail_all_checks = true);
+          for r in told {
+            log::push(Ev::BuSchedule { res: *r });
+            bu0.schedule_tasks_affected_by(&Res(*r));
+          }
+          cell::FAULTS.with(|f| f.borrow_mut().fail_all_checks = false);
+          drop(bu0);
+          log::push(Ev::BuAbandon);
+        }
         if let Some(changed) = &bottom_up {
           log::push(Ev::BuCreate);
           let mut bu = session.create_bottom_up_build();
@@ -132,6 +148,7 @@ impl<A: Tracker> Driver<A> {
           returned.push((*r, out));
         }
       });
+      cell::FAULTS.with(|f| f.borrow_mut().fail_all_checks = false);
       let aborted = result.err();
       let dep_errors: Vec<String> = if aborted.is_none() { session.dependency_check_errors().map(|e| e.to_string()).collect() } else { Vec::new() };
       if let Some(msg) = &aborted { log::push(Ev::Abort { msg: msg.clone() }); } else { log::push(Ev::DepErrors { errs: dep_errors.clone() }); }
